@@ -40,10 +40,15 @@ func (s *unlimitedSchedule) Next() (tx time.Time, ok bool) {
 		s.finish.Store(time.Now().Add(s.duration))
 	})
 	now := time.Now()
-	if now.Before(s.finish.Load()) {
+	finish := s.finish.Load()
+	if now.Before(finish) {
+		if start := finish.Add(-s.duration); now.Before(start) {
+			// Started in the future, e.g. nested in composite after a pause: no tokens before start.
+			return start, true
+		}
 		return now, true
 	}
-	return s.finish.Load(), false
+	return finish, false
 }
 
 func (s *unlimitedSchedule) Left() int {
